@@ -1,3 +1,4 @@
+//@ requires base
 // ---- std::io / std::cmp shims
 pub mod io {
     use vstd::prelude::*;
